@@ -52,6 +52,13 @@ def main():
             t0 = time.time()
             out_dir = f"/tmp/vpout_{seed_id}"
             run = sh(f"VP_REPO={wt} VP_OUT={out_dir} ./check {check} --tier quick", cwd=str(VERIF))
+            if os.environ.get("VP_SAVE_CORPUS"):
+                # keep up to two of the shrunk programs that exposed the change as regression inputs for the check
+                keep = sorted(Path(out_dir, "replays", check).glob("*.json"))[:2]
+                for n, rep in enumerate(keep):
+                    dest_dir = VERIF / "corpus" / check
+                    dest_dir.mkdir(parents=True, exist_ok=True)
+                    shutil.copy(rep, dest_dir / f"{seed_id}_{n}.json")
             shutil.rmtree(out_dir, ignore_errors=True)
             lines = [l for l in run.stdout.splitlines() if l.startswith(("VIOLATION", "FAIL"))]
             meta["checks"][check] = {
@@ -59,6 +66,9 @@ def main():
                 "violations": len([l for l in lines if l.startswith("VIOLATION")]),
                 "first_fail": next((l[:300] for l in lines if l.startswith("FAIL")), None),
             }
+        if os.environ.get("VP_SAVE_CORPUS"):
+            print(json.dumps({k: v for k, v in meta.items() if k != "needs"}, indent=1))
+            return 0
         dest = VERIF / "seeded" / seed_id
         dest.mkdir(parents=True, exist_ok=True)
         for name in ("patch.diff", "demo.py", "notes.md"):
